@@ -201,6 +201,7 @@ def run(repo: Repo, rep: Report, tier: str) -> None:
     _dataclass_rules(repo, rep)
     _enum_literal(repo, rep)
     _derive_scope(repo, rep)
+    _override_sibling(repo, rep)
     _namedtuple_sibling(repo, rep)
 
 
@@ -240,8 +241,21 @@ def _dataclass_rules(repo: Repo, rep: Report) -> None:
     ser = ast.unparse(repo.func(M_BUILDER, "CodeBuilder.__get_field_alias").node)
     srcs_schema = {"metadata": "metadata.get('alias')" in asrc, "annotated": "Alias" in asrc, "config": "aliases" in asrc}
     srcs_ser = {"metadata": "metadata.get('alias')" in ser, "annotated": "Alias" in ser, "config": "aliases" in ser}
-    if srcs_schema == srcs_ser:
-        rep.ok("R06.3", f"schema and serializer consult the same alias sources {srcs_ser}", None)
+    def order(fn):
+        pos = {}
+        for i, st in enumerate(fn.body):
+            t = ast.unparse(st)
+            for name, mark in (("metadata", "metadata.get('alias')"), ("annotated", "Alias"), ("config", "aliases")):
+                if mark in t and name not in pos:
+                    pos[name] = i
+        return [k for k, _ in sorted(pos.items(), key=lambda kv: kv[1])]
+
+    o_schema, o_ser = order(alias.node), order(repo.func(M_BUILDER, "CodeBuilder.__get_field_alias").node)
+    if srcs_schema == srcs_ser and o_schema != o_ser:
+        rep.violation("R06.3", alias.key, f"schema resolves aliases in the order {o_schema}, the serializer in the order {o_ser}",
+                      "a field that carries two alias sources gets one name in the document and another in the schema", loc=alias.loc)
+    elif srcs_schema == srcs_ser:
+        rep.ok("R06.3", f"schema and serializer consult the same alias sources in the same order {o_ser}", None)
     else:
         missing = [k for k in srcs_ser if srcs_ser[k] and not srcs_schema[k]]
         rep.violation("R06.3", alias.key, f"schema alias resolution ignores {missing}", "the schema names the property differently from the key the serializer emits "
@@ -282,6 +296,62 @@ def _derive_scope(repo: Repo, rep: Report) -> None:
         rep.violation("R06.10", fi.key, "element instances derived from a field inherit the field's metadata (serialize override)",
                       "a field with a callable `serialize` option whose return annotation is a container gets that container type re-applied to its own items at every level: "
                       "the schema nests until the recursion limit and rejects what the serializer emits", loc=fi.loc)
+
+
+def _override_sibling(repo: Repo, rep: Report) -> None:
+    """R06.11: the schema resolves a field's `serialize` override with the same decision list as the packer
+    (pack.get_overridden_serialization_method): strategies without a `serialize` entry are skipped, the first one that
+    has one wins.  Both functions are partially evaluated over the same abstract strategy lists."""
+    import re as _re
+
+    from ..core.schemadisp import INSTANCE
+    from ..core.values import Dct, Func, Lst
+
+    dummy = ast.parse("f(x)").body[0].value
+
+    def D(**kw):
+        return Dct("dict", {k: (Const(k), v) for k, v in kw.items()})
+
+    scen = {
+        "[{deserialize: G}, {serialize: F}]": [D(deserialize=Sym("G")), D(serialize=Sym("F"))],
+        "[{serialize: F1}, {serialize: F2}]": [D(serialize=Sym("F1")), D(serialize=Sym("F2"))],
+        "[{deserialize: G}]": [D(deserialize=Sym("G"))],
+        "[]": [],
+    }
+    for name, strats in scen.items():
+        got = {}
+        for side in ("pack", "schema"):
+            ev = make_eval(repo, inline_depth=3, allow_inline={"get_overridden_serialization_method"},
+                           assume=[(_re.compile(r"__owner_builder"), True)])
+            ev.inline_modules = frozenset(set(ev.inline_modules) | {M_SCHEMA})
+            ev.models["method:iter_serialization_strategies"] = lambda pe, recv, a, kw, p, e, strats=strats: [(Lst(list(strats)), p)]
+            p = Path()
+            if side == "pack":
+                spec = symbolic_spec(ev, p)
+                fc = p.heap[spec.oid]["field_ctx"]
+                p.heap[fc.oid]["metadata"] = Dct("dict", {}, name="metadata")
+                p.heap[spec.oid]["annotated_type"] = Const(None)
+                res = ev.call_func(Func(repo.func(M_PACK, "get_overridden_serialization_method")), [spec], {}, p, dummy, force=True)
+            else:
+                B = ev.builder_obj(p)
+                inst = ev.new_obj(p, INSTANCE, {"type": Sym("T"), "origin_type": Sym("T"), "name": Const("x"), "_Instance__owner_builder": B,
+                                                "__owner_builder": B, "metadata": Dct("dict", {}, name="metadata")})
+                res = ev.call_func(Func(repo.func(M_SCHEMA, "Instance.get_overridden_serialization_method"), self_v=inst), [], {}, p, dummy, force=True)
+            outs = set()
+            for v, q in res:
+                for w in q.worlds():
+                    at = Path._view(w, "A|")
+                    outs.add((show(v), tuple(sorted((k, b) for k, b in at.items() if "owner_builder" not in k and "isinstance" not in k))))
+            got[side] = outs
+        if not got["pack"] or not got["schema"]:
+            rep.undecide("R06.11", f"{name}: no outcome")
+        elif got["pack"] == got["schema"]:
+            rep.ok("R06.11", f"strategies {name}: schema and packer resolve the override identically: {sorted(v for v, _ in got['pack'])}", None)
+        else:
+            rep.violation("R06.11", f"{M_SCHEMA}::Instance.get_overridden_serialization_method", f"strategies {name}: packer resolves {sorted(got['pack'])}, schema {sorted(got['schema'])}",
+                          "the schema describes the type chosen by another serialization override than the one the packer applies (e.g. a higher-priority deserialize-only strategy hides a lower-priority serialize)",
+                          loc=repo.func(M_SCHEMA, "Instance.get_overridden_serialization_method").loc)
+    rep.floor("R06.11", 4)
 
 
 def _enum_literal(repo: Repo, rep: Report) -> None:
